@@ -35,6 +35,7 @@ def run(chk: Check) -> None:
     from .c10 import run_only_once_slot
     run_only_once_slot(chk, ix, "R13.10")
     run_notes_carry_code(chk, ix)
+    run_watchers_see_everything(chk, ix)
     aei = ix.func("mypy.errors.Errors.add_error_info")
     g = CFG(aei.node)
 
@@ -591,3 +592,25 @@ def run_notes_carry_code(chk: Check, ix) -> None:
                 r11.violation(key, f.loc(nt), f"the function reports its errors with code {codes_used} and this note with none (so `misc`): `# type: ignore[{codes_used[0].split('.')[-1].lower().replace('_', '-')}]` removes the error and leaves the note")
     if n < 20:
         raise AnalysisError(f"only {n} notes next to coded errors found")
+
+
+def run_watchers_see_everything(chk: Check, ix) -> None:
+    """R13.12: the ErrorWatcher stack is consulted before any decision that depends on codes, ignores or options."""
+    from ..cfg import CFG
+    r = chk.rule("R13.12", "the checker decides speculative checks (which overload item matches, __add__ or __radd__, which union item accepts a call) by asking ErrorWatchers whether an error was produced, so what a watcher sees must not depend on which error codes are enabled or ignored: in Errors.add_error_info and Errors._add_error_info every `return` is preceded on every CFG path by the call `self._filter_error(file, info)` (the watcher stack), i.e. nothing returns earlier", floor=2)
+    for mname in ("add_error_info", "_add_error_info"):
+        f = ix.func(f"mypy.errors.Errors.{mname}")
+        g = CFG(f.node)
+        filt = [n for n in g.nodes if n.stmt is not None and any(isinstance(c, ast.Call) and call_name(c) == "_filter_error" for c in ast.walk(n.stmt.test if n.kind == "test" and hasattr(n.stmt, "test") else n.stmt))]
+        if not filt:
+            if mname == "_add_error_info":
+                r.info(f"Errors.{mname} no longer consults the watcher stack itself", f.loc(), "only add_error_info is checked")
+                continue
+            raise AnalysisError(f"Errors.{mname}: the `_filter_error` call was not found")
+        rets = [n for n in g.nodes if n.kind == "stmt" and isinstance(n.stmt, ast.Return)]
+        early = [x for x in rets if not g.must_pass(g.entry, [x], filt, labels_excluded=("exc",))]
+        key = f"Errors.{mname}: no return before the ErrorWatcher stack has seen the error"
+        if not early:
+            r.ok(key, f.loc(filt[0].stmt))
+        else:
+            r.violation(key, f.loc(early[0].stmt), f"the `return` at line {early[0].stmt.lineno} is reachable without passing `self._filter_error(...)`: an error dropped here (disabled code, ignored line) is invisible to the watchers, a speculative check then succeeds where it fails by default, another overload item / operator method is chosen and diagnostics with *other* codes change when a code is disabled")
